@@ -142,6 +142,35 @@ func runC11(c *Ctx) {
 		if coqVal(target.Elem()) != snapshot {
 			c.native = append(c.native, NativeViolation{Case: desc + fmt.Sprintf(" data=%x", data), What: "overwriting / re-using the input buffer changed the decoded value", Class: "decoded-aliases-input"})
 		}
+		// ---- data written in the OTHER slice form (repeated fields read by a default-mode instance and
+		// the other way round): the compatibility paths must copy too
+		{
+			ocfg := tc.Cfg
+			ocfg.ProtoArrays = !ocfg.ProtoArrays
+			other := newTypeCase(tc.T, ocfg)
+			if d3, err := other.P.Marshal(nil, v.Addr().Interface()); err == nil && len(d3) > 0 {
+				in3 := make([]byte, len(d3), len(d3)+16)
+				copy(in3, d3)
+				t3 := reflect.New(tc.T)
+				if r := safely(func() error { return tc.P.Unmarshal(in3, t3.Interface()) }); !r.panicked && r.err == nil {
+					if string(in3) != string(d3) {
+						c.native = append(c.native, NativeViolation{Case: desc, What: "Unmarshal of the other slice form modified the input bytes", Class: "unmarshal-modifies-input"})
+					}
+					lo3, hi3 := rangeOf(in3)
+					if m := findAlias(t3.Elem(), lo3, hi3, 0); m != "" {
+						c.native = append(c.native, NativeViolation{Case: desc + fmt.Sprintf(" data=%x (written with cfg=%s)", d3, ocfg), What: "value decoded from the other slice form points into the input buffer: " + m, Class: "decoded-aliases-input"})
+					}
+					snap3 := coqVal(t3.Elem())
+					for j := range in3[:cap(in3)] {
+						in3[:cap(in3)][j] = 0x42
+					}
+					if coqVal(t3.Elem()) != snap3 {
+						c.native = append(c.native, NativeViolation{Case: desc + fmt.Sprintf(" data=%x (written with cfg=%s)", d3, ocfg), What: "overwriting the input buffer changed the value decoded from the other slice form", Class: "decoded-aliases-input"})
+					}
+					c.count("cross_form_decodes")
+				}
+			}
+		}
 		// ---- the same through a target that already holds data (same keys, same shapes):
 		// whatever is overwritten or merged must still be a private copy
 		in2 := make([]byte, len(data), len(data)+16)
